@@ -151,8 +151,20 @@ def run(ctx: Ctx, env):
         ctx.check(nc.is_dataclass and nc.frozen, "R5.frozen-dataclass", name,
                   f"ast.{name} is not declared @dataclass(frozen=True)", where)
         ctx.check(nc.eq, "R5.generated-eq", name, f"ast.{name} disables the generated __eq__ (eq=False)", where)
-        bad = [d for d in nc.custom_dunder if d in ("__eq__", "__hash__", "__ne__", "__setattr__", "__post_init__")]
+        bad = [d for d in nc.custom_dunder if d in ("__eq__", "__hash__", "__ne__", "__setattr__")]
         ctx.check(not bad, "R5.no-custom-eq", name, f"ast.{name} defines {bad}: equality is no longer structural", where)
+        if "__post_init__" in nc.custom_dunder:
+            # a __post_init__ may validate; it may not rewrite the fields it was given (object.__setattr__ on a frozen instance)
+            r = repo.lookup_method("odata_query.ast." + name, "__post_init__")
+            rewrites = []
+            if r is not None:
+                for n in ast.walk(r[1]):
+                    if isinstance(n, ast.Call) and ast.unparse(n.func) in ("object.__setattr__", "setattr", "super().__setattr__") and len(n.args) >= 2:
+                        rewrites.append(ast.unparse(n.args[1]) if ast.unparse(n.func) != "super().__setattr__" else ast.unparse(n.args[0]))
+                    if isinstance(n, ast.Attribute) and n.attr == "__dict__":
+                        rewrites.append("__dict__")
+            ctx.check(not rewrites, "R5.fields-as-given", name, f"ast.{name}.__post_init__ rewrites {rewrites}: the node no longer holds what it was built from "
+                      "(traversals that look at the field's type, equality with parsed trees)", where)
         for f in nc.own_fields:
             ctx.check(f.compare, "R5.field-compares", f"{name}.{f.name}", "field excluded from comparison (compare=False)",
                       f"{am.rel}:{f.lineno}")
